@@ -19,7 +19,7 @@ LEVEL_TEXT = ("Three exhaustive families, no sampling: all realisable profiles w
               "a total and all one-dominant tuples up to a larger bound, pushed through the real percentage code on one long-lived Report "
               "(equal totals consecutively); a structured family with one dominant category up to 10^7. The rendered summary (text and "
               "Markdown) is parsed back and the verdict checked.")
-LEVEL_NOTE = "Bounds in evidence.bounds. 'True share' is exact rational arithmetic. Families 2-3 substitute Report.quality_profile (a one-line sum) to reach tuples no list of function lengths realises - the property quantifies over all 4-tuples."
+LEVEL_NOTE = "Bounds in evidence.bounds. 'True share' is exact rational arithmetic. Families 2-3 substitute Report.quality_profile (a one-line sum) to reach tuples no list of function lengths realises - the property quantifies over all 4-tuples. A fourth family drives ONE Codebase through every sequence of <= 4/5 add_file / aggregate / summary operations; subsets are also rendered on a 60-column console and as whole reports next to an opposite-verdict comparison report."
 
 
 def realisable(kind: int, p: int) -> bool:
